@@ -32,6 +32,8 @@ def rand_cfg(rng, cyclic=False):
         cfg['linear'] = rng.choice([None, 'runonce', 'lbgs'])
         cfg['sub_by_depth'] = {'1': 'krylov', '2': rng.choice(['direct_asm', 'direct_asm', 'direct'])}
         cfg['jac'] = rng.choice(['dense', 'csc'])
+        # the Krylov level mostly works matrix-free on the vectors of the assembled level below
+        cfg['krylov_assemble'] = rng.random() < 0.3
     if cfg['linear'] != 'direct_asm' and cfg['linear'] != 'krylov':
         # an assembled jacobian is only used by solvers that ask for it
         pass
@@ -89,6 +91,19 @@ class C01(Property):
                    'opts': {'safe_indices': True, 'scaling': rng.random() < 0.4,
                             'array_scaling': True, 'implicit': rng.random() < 0.3,
                             'cycles': False, 'resp_chain': True, 'n_comps': (3, 6)},
+                   'cfg': cfg}
+        # family: three solver levels — a block solver at the root, a matrix-free Krylov solver on
+        # its child groups, assembled jacobians (DirectSolver) on the grandchildren: the assembled
+        # level is applied under differently scoped vectors by the two levels above it
+        for _ in range(4 if tier == 'quick' else 200):
+            cfg = rand_cfg(rng, False)
+            cfg.update(linear=rng.choice([None, 'runonce', 'lbgs']), sub_linear=None,
+                       sub_by_depth={'1': 'krylov', '2': rng.choice(['direct_asm', 'direct_asm', 'direct'])},
+                       jac=rng.choice(['dense', 'csc']), krylov_assemble=False)
+            yield {'gen_seed': rng.randrange(10 ** 9),
+                   'opts': {'safe_indices': True, 'scaling': rng.random() < 0.3,
+                            'array_scaling': True, 'implicit': rng.random() < 0.3,
+                            'cycles': False, 'n_comps': (5, 9)},
                    'cfg': cfg}
         for _ in range(n):
             cyc = rng.random() < 0.4
